@@ -90,3 +90,12 @@ Proof. intros. seq_unfold. lia. Qed.
 
 Lemma seq_add_0 : forall a, seq_wf a -> seq_add a 0 = a.
 Proof. intros a H. unfold seq_wf in H. seq_unfold. lia. Qed.
+
+Lemma seq_sdiff_add0_r : forall a b, seq_sdiff a (seq_add b 0) = seq_sdiff a b.
+Proof.
+  intros. seq_unfold.
+  replace ((a - (b + 0) mod 4294967296) mod 4294967296) with ((a - b) mod 4294967296) by lia.
+  reflexivity.
+Qed.
+Lemma seq_lt_add0_r : forall a b, seq_lt a (seq_add b 0) = seq_lt a b.
+Proof. intros. unfold seq_lt. now rewrite seq_sdiff_add0_r. Qed.
